@@ -75,6 +75,7 @@ class Analyzer:
         self.watch = None               # optional predicate on callee paths: argument values are recorded in Result.call_states
         self.closure_seeds = {}         # closure body id -> {arg local: (lo, hi)}
         self.mag = False                # C03: emit MAG obligations at loop-count / allocation-size / dimension sinks
+        self.prune = True               # drop facts about dead temporaries on every edge (State.prune_dead)
         self.mag_pos = frozenset()      # C03: the cursor coordinate terms reachable from the parameters (bounded on entry by C09)
         self.mag_soft = frozenset()     # C03: terms whose entry invariant is not to be relied on for loop trip counts (see interproc.analyse)
         self.debug_head = None          # (block, callback(pred, old, new_in, joined)) for debugging a loop head
@@ -1678,6 +1679,7 @@ class Analyzer:
         edge = {}
         pred = body.pred
         back = set(body.back_edges)
+        live_in = None if (os.environ.get('VERIF_NO_PRUNE') or not self.prune) else body.live_in
 
         def solve(work, allowed=None):
             while work:
@@ -1692,6 +1694,8 @@ class Analyzer:
                 for succ, so in outs:
                     if so is None or so.bottom:
                         continue
+                    if live_in is not None:
+                        so.prune_dead(live_in[succ], body.argc)
                     got[succ] = so if succ not in got else got[succ].join(so)
                 for succ in body.succ[bi]:
                     if succ in got:
